@@ -34,6 +34,19 @@ CHECKS['C09'] = ('fault_enumeration', '§5 C09',
     'Allocation totals come from a read-only trace hook in Runtime::allocate; pre-flight checks may refuse earlier than the exact peak (allowed); corpus is finite.',
     'fault-point enumeration: size limit placed at every allocation threshold of each run')
 
+CHECKS['C17'] = ('model_checking', '§5 C17',
+    'Explicit-state BFS to a fixpoint: from the empty mapping / set, every documented update (set, set_default, pop, discard, clear, update from generators and from other states, update_from_keys, map_values, add, remove, set algebra) over a key universe of 3-5 keys and 2 values, for 8 hash/equality configurations (injective, constant, modular hashes; equality coarser than identity; extreme hash values; the dynamic constructors). State key = (abstract finite map over equivalence classes, multiset of bucket sizes), so layouts that differ only internally are distinct states. Every edge observes len, lookup/contains/get(+default) for every key, sorted entries/keys/values, eq and hash against a freshly built equal collection, subset relations — on the post-state and again on the pre-state (persistence). Since the reachable space is finite and closed, every history of any length is a path of the explored graph.',
+    'Key universe and value universe are small; which of several equal keys is stored and iteration order are unspecified and normalised; inconsistent hash/eq pairs are not explored.',
+    'explicit-state BFS to fixpoint on the real collections with per-transition conformance to an association-list model')
+CHECKS['C15'] = ('model_checking', '§5 C15',
+    'Explicit-state BFS over Sequence<int> values from literal arrays, ranges of every step sign (and 64-bit edge ranges), empty sequences and infinite sequences: every copying update, slice, concatenation (with earlier states), map, sort, filter, repeat with indices at -len-1..len+1 and 2^64; state key = (model list, representation path such as Slice(Chain(Array,Range))), so every lazy representation of the same list is a separate state. Every edge observes len, every index, the forced elements, eq/cmp/hash/to_str against the literal list, searches and folds on the post-state and again on the pre-state. Quick: depth 2 (2.8k states, 11k edges); thorough: depth 3 (54k states, 256k edges).',
+    'Python lists are the reference; requests the book leaves open (take/skip beyond the end, insert at len or negative, repeat(0)) accept the list result or an error value; infinite sequences are modelled by a 48-element prefix.',
+    'explicit-state BFS over operation histories with per-transition conformance to a list model')
+CHECKS['C16'] = ('model_checking', '§5 C16',
+    'Part A: explicit-state BFS over Generator<int> values (finite, empty, infinite, successors) with every adaptor (map, filter, take, skip, take_while, skip_until, add with earlier states, aggregate x2, repeat, distinct; zip/enumerate/windows/chunks/group/with_count/flatten/product/unzip as terminal observations) and every consumer (to_array twice, len, get, nth, first, last, reduce, any/all/count, contains, min/max, join) on the post-state and again on the pre-state. Part B: every pipeline of <=2 (thorough 3) adaptors over a ticking infinite source x 3 consumers: the source elements actually evaluated (recorded by the writer double) are in order, once each, and at most what a lazy reference pipeline pulls plus a constant look-ahead per adaptor.',
+    'Python lists/itertools are the reference; infinite generators are modelled by a 64-element prefix; look-ahead constants are part of the oracle (window width, chunk size, 2 for group, 1 otherwise).',
+    'explicit-state BFS with per-transition conformance + exhaustive pipeline enumeration with an evaluation-count oracle')
+
 NA = {
 }
 
